@@ -13,7 +13,7 @@
 
    The second half of the file is spec level: value of a column on the torus as an integer scaled by 2^P,
    `phase s ct = ct[0] + sum ct[i+1] (x) s_i` exact, and the deterministic worst-case envelope of the gadget product. *)
-From PV Require Import Base.MachineInt Model.Znx Model.Limbs Model.Flat Model.Ring Model.Poly Model.DftAbs.
+From PV Require Import Base.MachineInt Model.Znx Model.Limbs Model.LimbsBig Model.Flat Model.Ring Model.Poly Model.DftAbs.
 Open Scope Z_scope.
 
 Definition cols_t := list plimbs.
@@ -85,69 +85,14 @@ Definition keyswitch_internal (n cols_out R : nat) (res0 : cols_t) (a : cols_t) 
   | None => None
   end.
 
-(* vec_znx_big_normalize_cross of the NTT120 family (reference/ntt120/vec_znx_big.rs): the same algorithm as
-   Limbs.normalize_cross at width 128, EXCEPT that the partial first limb is shifted with a plain arithmetic shift
-   (`nfc_mul_pow2_assign`: x >> take, floor) where the i64 kernel `znx_mul_power_of_two` rounds.  Copied from
-   Model/Limbs.v with that one change (the rest is shared: cross_inner, carry_phase, top_phase, ...). *)
-Definition normalize_cross_ntt (rb ab : Z) (off : Z) (a r0 : list Z) : option (list Z) :=
-  let w := 128 in
-  let rsz := length r0 in let asz := length a in
-  let a_tot := zn asz * ab in let r_tot := zn rsz * rb in
-  let '(lsh, lo) := split_offset ab off in
-  let res_end_bit := clampZ (- lo * ab) 0 r_tot in
-  let res_start_bit := clampZ (a_tot - lo * ab) 0 r_tot in
-  let a_end_bit := clampZ (lo * ab) 0 a_tot in
-  let a_start_bit := clampZ (r_tot + lo * ab) 0 a_tot in
-  let res_end := Z.to_nat (res_end_bit / rb) in
-  let res_start := Z.to_nat (div_ceil res_start_bit rb) in
-  let a_end := Z.to_nat (a_end_bit / ab) in
-  let a_start := Z.to_nat (div_ceil a_start_bit ab) in
-  let rz := zeros rsz in
-  if Nat.eqb res_start 0 then Some rz else
-  let a_out := (asz - a_start)%nat in
-  let ac0 := carry_phase w ab lsh a asz a_out in
-  let mid := (a_start - a_end)%nat in
-  let s0 := {| c_res := rz; c_anorm := 0; c_acarry := ac0; c_rcarry := 0; c_atake := 0; c_racc := rb; c_rlimb := (res_start - 1)%nat |} in
-  let fuel := (Z.to_nat ab + Z.to_nat rb + 4)%nat in
-  let '(s, brk, bad) :=
-    fold_left (fun (acc : cstate * bool * bool) j =>
-      let '(s, brk, bad) := acc in
-      if brk || bad then acc else
-      let a_limb := (a_start - j - 1)%nat in
-      let '(an, ac) := middle_step w true ab lsh 0 (nthZ a a_limb) (c_acarry s) in
-      let s1 := {| c_res := c_res s; c_anorm := an; c_acarry := ac; c_rcarry := c_rcarry s; c_atake := ab;
-                   c_racc := c_racc s; c_rlimb := c_rlimb s |} in
-      let s2 :=
-        if Nat.eqb j 0 then
-          if negb ((a_tot - a_start_bit) mod ab =? 0) then
-            let take := (a_tot - a_start_bit) mod ab in
-            {| c_res := c_res s1; c_anorm := asr (c_anorm s1) take; c_acarry := c_acarry s1; c_rcarry := c_rcarry s1;
-               c_atake := c_atake s1 - take; c_racc := c_racc s1; c_rlimb := c_rlimb s1 |}
-          else if negb ((r_tot - res_start_bit) mod rb =? 0) then
-            {| c_res := c_res s1; c_anorm := c_anorm s1; c_acarry := c_acarry s1; c_rcarry := c_rcarry s1;
-               c_atake := c_atake s1; c_racc := c_racc s1 - (r_tot - res_start_bit) mod rb; c_rlimb := c_rlimb s1 |}
-          else s1
-        else s1 in
-      match cross_inner w fuel rb ab a_limb s2 with
-      | (s3, InnerDone) => (s3, false, false)
-      | (s3, OuterBreak) => (s3, true, false)
-      | (s3, Fuel) => (s3, false, true)
-      end) (seq 0 mid) (s0, false, false) in
-  if bad then None else
-  if Nat.eqb res_end 0 then Some (c_res s) else
-  let cu := if Nat.eqb a_start a_end then c_acarry s else c_rcarry s in
-  let cu' := if Nat.eqb a_start a_end && (lo <? 0)
-             then gapbits_phase w 8 (Z.min (Z.max (- lo * ab - r_tot) 0) 128) cu else cu in
-  Some (fst (top_phase w false rb 0 res_end (c_res s, cu'))).
-
-(* the big normaliser of backend family wb (64: FFT64, 128: NTT120) *)
-Definition normalize_big (wb : Z) (rb ab off : Z) (a r0 : list Z) : option (list Z) :=
-  if (wb =? 128) && negb (rb =? ab) then normalize_cross_ntt rb ab off a r0 else normalize wb rb ab off a r0.
+(* the big normaliser of backend family wb (64: FFT64, Limbs.normalize ; 128: NTT120, LimbsBig.normalize_big) *)
+Definition normalize_bigw (wb : Z) (rb ab off : Z) (a r0 : list Z) : option (list Z) :=
+  if wb =? 128 then LimbsBig.normalize_big 128 rb ab off a r0 else normalize wb rb ab off a r0.
 
 (* vec_znx_big_normalize (FFT64 accumulates in i64, NTT120 in i128; result limbs are i64) on one column *)
 Definition wbig (be : Z) : Z := if be <=? 2 then 64 else 128.
 Definition big_normalize (wb : Z) (n : nat) (rb ab : Z) (rsize : nat) (a : plimbs) : option plimbs :=
-  lift_coeff (fun al r => match normalize_big wb rb ab 0 al r with Some o => Some (map (wrap 64) o) | None => None end)
+  lift_coeff (fun al r => match normalize_bigw wb rb ab 0 al r with Some o => Some (map (wrap 64) o) | None => None end)
              n rsize a (repeat (pzero n) rsize).
 (* vec_znx_normalize on one column (fresh destination) *)
 Definition small_normalize (n : nat) (rb ab : Z) (rsize : nat) (a : plimbs) : option plimbs :=
